@@ -6,13 +6,16 @@
 (*   action = one statement block between two blocking points; "woken, waiting for the mutex" is a pc value and the      *)
 (*   choice of the next block is the mutex hand-over (any order).  Condition variables are FIFO queues, notify_one wakes  *)
 (*   the head.  close() sets m_closed WITHOUT the mutex (go.h:144) and then notifies under it: two steps.  (A flag flip   *)
-(*   in the middle of a block has the same outcome as one before or after that block, see DESIGN note of C09.)            *)
+(*   in the middle of a block has the same outcome as one before or after that block: the blocks read m_closed in the     *)
+(*   order guard, closed-test, loop-2 guard, return expression, and a flip between two of these reads gives the result    *)
+(*   of "flip before the block" resp. of "block, flip, notification, woken again with nobody else running in between".)   *)
 (* Cap > 0: buffered (go.h:259-355): the MPMC ring is an atomic FIFO (C07) whose real size is RingCap >= Cap, every      *)
 (*   atomic access (m_closed load, read_available, push, pop, waiter-counter load / fetch_add / fetch_sub, semaphore      *)
 (*   signal / wait) is one step; thread-local work (Timeout::expired) is merged into the preceding step.  The semaphores  *)
 (*   are the abstract counting semaphore of C02.                                                                         *)
 (* Environment: a timed call may expire at any moment (Expire), a timed sleeper may be woken by its deadline             *)
-(*   (TimeoutFire); clients start their next call at any moment (SStart / RStart / CloseFlag).                            *)
+(*   (UTimeout / BTimeout); clients start their next call at any moment (SStart / RStart / CloseFlag).                    *)
+(*   "At rest" = no call can take a step by itself; the stuck-ness properties are phrased on states at rest.              *)
 (*                                                                                                                      *)
 (* KF = set of recorded deviations of the code that are switched ON, i.e. modelled AS WRITTEN:                            *)
 (*   "F3"     go.h:368 the wait-for-receiver guard lets a sender through while the hand-off slot is occupied, and the     *)
@@ -25,7 +28,8 @@
 (*            test and registers afterwards is never woken.  OFF = the re-check above also reads m_closed.                 *)
 (*   "DR"     go.h:298-309 buffered_recv reports "closed" after ONE failed pop although an item pushed by a send that      *)
 (*            passed its m_closed test may have arrived in between.  OFF = pop again after m_closed was seen.              *)
-(* KF = {} is the repaired protocol, KF = all four is the code as written.                                                *)
+(* KF = {} is the repaired protocol (= spec/GoChannel_go_h.patch), KF = all four is the code as written.                  *)
+(*   ("F3g" / "F3t": the F3 patch without its guard change / without its sender-turn mutex - each half alone must fail.)  *)
 EXTENDS Naturals, Integers, Sequences, FiniteSets, TLC
 CONSTANTS Cap,        \* 0 unbuffered, 1, 2 buffered
           S, R,       \* sender / receiver threads
